@@ -134,6 +134,10 @@ Definition clock_ok (w : world) : bool :=
 
 Definition is_none {T} (o : option T) : bool := match o with None => true | Some _ => false end.
 
+(* X1: no temp file outlives an engine step *)
+Definition no_temps (w : world) : bool :=
+  forallb (fun ee => is_none (x_tfile (getx w (fst ee) false)) && is_none (x_tfile (getx w (fst ee) true))) (ents_of w).
+
 (* one side of one file entry (e >= 2) *)
 Definition side_ok (g : ghost) (w : world) (e : nat) (en : StateModel.entry) (sd : bool) : bool :=
   let x := StateModel.gs en sd in
@@ -163,8 +167,8 @@ Definition side_ok (g : ghost) (w : world) (e : nat) (en : StateModel.entry) (sd
         (* E3: paths never wrong, only unknown *)
         ostr_in (StateModel.s_path x) (pstr (ProvModel.o_path ob)) && ostr_in (StateModel.s_spath x) (pstr (ProvModel.o_path ob)) &&
         (if disc then
-           (* (D) an unflagged side of a discarded entry is gone *)
-           fl || negb (ProvModel.o_exists ob)
+           (* (D) a side of a discarded entry is gone (the weaker form "an unflagged side is gone" follows) *)
+           negb (ProvModel.o_exists ob)
          else
            (* (C1) one-sided entries are flagged *)
            (paired || fl) &&
@@ -176,14 +180,22 @@ Definition side_ok (g : ghost) (w : world) (e : nat) (en : StateModel.entry) (sd
            | Some cs =>
              (* owner side: every hash the state holds is a content the file had *)
              opt_in (StateModel.s_hash x) cs && opt_in (StateModel.s_shash x) cs &&
+             (* a known path comes with a known hash; a paired entry has its sync markers *)
+             (is_none (StateModel.s_path x) || negb (is_none (StateModel.s_hash x))) &&
+             (negb paired || (negb (is_none (StateModel.s_spath x)) && negb (is_none (StateModel.s_shash x)))) &&
              match cs with d :: _ => N.eqb d (ProvModel.o_data ob) | [] => false end &&
              (* (J) the peer holds the owner's content, or the owner is ahead and flagged *)
              (negb paired ||
               StateModel.oN_eqb (StateModel.s_shash y) (Some (ProvModel.o_data ob)) ||
-              (negb (StateModel.oN_eqb (StateModel.s_shash x) (Some (ProvModel.o_data ob))) && fl))
+              (negb (StateModel.oN_eqb (StateModel.s_shash x) (Some (ProvModel.o_data ob))) && fl)) &&
+             (* the peer object is the engine's *)
+             match oidk (StateModel.s_oid y) with
+             | Some k' => is_none (g_get k' (g_of g (negb sd)))
+             | None => negb paired
+             end
            | None =>
              (* mirror side: made and written by the engine only; always what the markers say *)
-             paired && ProvModel.o_exists ob &&
+             paired && ProvModel.o_exists ob && ex_is (StateModel.s_ex x) StateModel.ExExists &&
              StateModel.oN_eqb (StateModel.s_shash x) (Some (ProvModel.o_data ob)) &&
              StateModel.oN_eqb (StateModel.s_hash x) (Some (ProvModel.o_data ob)) &&
              StateModel.ostr_eqb (StateModel.s_spath x) (Some (pstr (ProvModel.o_path ob))) &&
@@ -226,6 +238,7 @@ Definition inv_code (g : ghost) (w : world) : N :=
   else if negb (cs_complete_b w) then 5
   else if negb (clock_ok w) then 6
   else if negb (root_entries_ok w) then 7
+  else if negb (no_temps w) then 8
   else match find (fun ee => negb (entry_ok g w (fst ee) (snd ee))) (skipn 2 (ents_of w)) with
        | Some ee => 100 + N.of_nat (fst ee)
        | None => 0
